@@ -61,3 +61,8 @@ package hcldec
 // verif:func (*BlockMapSpec).decode$1
 //@ nosafety
 //@ ensures isKnownVal(ret)
+
+// verif:unit U18 props=C19
+// Block labels may have been computed from values (dynamic blocks): not source text.
+// verif:dirtystrings hcldec.blockLabel.Value
+// verif:taintscan spec.go
